@@ -9,10 +9,23 @@ import (
 )
 
 func Main(args []string) int {
-	if len(args) > 0 && args[0] == "smoke" {
-		return smoke()
+	if len(args) == 0 {
+		fmt.Println("usage: upfsim check|worker|replay|shrink|smoke ...")
+		return 2
 	}
-	fmt.Println("usage: upfsim smoke")
+	switch args[0] {
+	case "smoke":
+		return smoke()
+	case "check":
+		return cmdCheck(args[1:])
+	case "worker":
+		return cmdWorker(args[1:])
+	case "replay":
+		return cmdReplay(args[1:])
+	case "shrink":
+		return cmdShrink(args[1:])
+	}
+	fmt.Println("usage: upfsim check|worker|replay|shrink|smoke ...")
 	return 2
 }
 
